@@ -38,6 +38,7 @@ MANIFEST = dict(
 
 PINNED = ["C04_phase1_canonical", "C04_phase2_sig", "C04_decode_roundtrip", "C04_canon_order_independent",
           "C04_entry_points_agree", "C04_hash_lengths", "C04_entry_points_agree_sha256", "C04_no_foreign_tx",
+          "C04_htlc_sigs_bind",
           "C04_nonvacuous", "C04_anchors_type_refuted", "C04_old_vout_truncation_refuted",
           "C04_validated_contents_bounded"]
 
@@ -239,8 +240,13 @@ def run(res):
                 "a case is non-trivial when phase 2 signed and it carries HTLCs; distinct by full case. Mutants: every field "
                 "of the serialised tx (version, locktime, sequence, outpoint bytes, script_sig, witness, input count, output "
                 "count/order, every value, every script_pubkey byte) and of every witness script (every byte, alone and with "
-                "the script_pubkey recomputed; truncation, extension, non-minimal / uncompressed / foreign key pushes), all of "
-                "them for the full-mutation cases and three per class for the others",
+                "the script_pubkey recomputed; truncation, extension, non-minimal / uncompressed / foreign key pushes; malformed "
+                "scripts: cut push headers, a PUSHDATA4 of 2^32-1 bytes, random bytes) and of the semantic arguments of the raw "
+                "entry point (commitment number, fee rate, HTLC dropped / duplicated / expiry or value changed, lists swapped), all "
+                "of them for the full-mutation cases and three per class for the others; every call is judged in the same channel "
+                "state (fresh node after each accepted call); the model's accept at a mutant's content is the semantic entry "
+                "point's answer on a fresh node. Restart stage: every second signed case is restored from the store "
+                "(Node::restore_node) and both entry points are retried, compared with a not-restarted control",
         "samples": [strip(c) for c in cases[:2]],
         "cases": len(cases),
         "phase2_signed": len(signed),
@@ -254,8 +260,10 @@ def run(res):
     })
     res.assumptions = [
         "SHA-256 / RIPEMD-160 outputs are 32 / 20 bytes; PublicKey::from_slice accepts the serialised channel keys (premises of C04_entry_points_agree)",
-        "the validator accepts only contents whose received-HTLC expiries are < 2^31 and whose HTLC amounts in msat fit u64 (premise accept_bounded; implied by validate_expiry and the in-flight limit, C05)",
+        "the validator accepts only contents whose received-HTLC expiries are < 2^31 (premise accept_bounded; proved from C05's validator model in C04_validated_contents_bounded)",
         "to_self_delay <= 2016 and the commitment type is not the deprecated non-zero-fee Anchors (premises of C04_entry_points_agree; see known finding)",
+        "funding output index <= 65535 (setup_channel refuses wider ones since b5e2d35; before, the index was truncated: C04_old_vout_truncation_refuted)",
+        "HTLC amounts in msat fit u64 (htlc_amount_exact; implied by the in-flight limit) - otherwise canon_tx carries the wrapped amount the release build computes",
         "ECDSA: a signature verifies for one digest only; BIP143 digest injective on transactions (premises of C04_no_foreign_tx)",
         "the correspondence is differential testing: bounded by the generator described in coverage.rule",
     ]
